@@ -212,13 +212,14 @@ SRC_TIE = {
     'C01': ['Codec', 'Msg'], 'C02': ['Codec', 'Msg', 'MsgDecision'], 'C03': ['Codec'],
     'C04': ['Tok', 'Parser', 'ParserSession'], 'C05': ['Tok', 'Parser', 'ParserSession'], 'C06': ['Tok', 'Parser', 'ParserSession'], 'C18': ['Tok'], 'C19': ['Tok'],
     'C07': ['Vlq', 'VlqRead', 'Tracks', 'Writer', 'Reader', 'FileRoundTrip'], 'C08': ['Vlq', 'VlqRead', 'Writer', 'Reader', 'FileConformance'], 'C09': ['Meta', 'Vlq', 'MetaFrame', 'MetaRoundTrip'], 'C10': ['Ports'], 'C11': ['Ports', 'PortsLifecycle'],
-    'C12': ['Tracks', 'TracksMerge'], 'C16': ['Tracks'],
+    'C12': ['Tracks', 'TracksMerge'], 'C17': ['Charset'], 'C16': ['Tracks'],
 }
 SRC_TIE_FILES = {
     'Codec': ['mido/messages/encode.py', 'mido/messages/decode.py', 'mido/messages/checks.py'],
     'Parser': ['mido/parser.py', 'mido/tokenizer.py'],
     'MetaFrame': ['mido/midifiles/meta.py'],
     'Ports': ['mido/ports.py'],
+    'Charset': ['mido/midifiles/meta.py'],
     'TracksMerge': ['mido/midifiles/tracks.py'],
     'FileConformance': ['mido/midifiles/midifiles.py', 'mido/midifiles/tracks.py', 'mido/midifiles/meta.py'],
     'PortsLifecycle': ['mido/ports.py'],
